@@ -13,7 +13,7 @@ DEMO_CMD=$(python3 -c "import json;print(json.load(open('$OUT/meta.json'))['demo
 # 1. existing suite with the patch (no demo file present)
 go build ./... && go test -vet=off -count=1 ./... > /tmp/seeds/$ID.tests.log 2>&1; T=$?
 # place demo files
-for f in $OUT/*_test.go; do [ -f "$f" ] && { if grep -q "^package main" $f; then cp $f .; else cp $f lib/; fi; }; done
+for f in $OUT/*_test.go; do [ -f "$f" ] && { case "$(grep -m1 '^package ' $f | awk '{print $2}')" in main) cp $f . ;; prom|prom_test) cp $f lib/prom/ ;; plot) cp $f lib/plot/ ;; lttb) cp $f lib/lttb/ ;; resolver) cp $f internal/resolver/ ;; *) cp $f lib/ ;; esac; }; done
 for f in $OUT/lib/*_test.go; do [ -f "$f" ] && cp $f lib/; done
 [ -d $OUT/demo ] && cp -r $OUT/demo internal/
 bash -c "$DEMO_CMD" > /tmp/seeds/$ID.demo_with.log 2>&1; W=$?
